@@ -34,6 +34,7 @@ THEOREMS = [
     "C13_use_skips_structure",
     "C13_wrapper_iff_names_differ",
     "C13_rename_preserves_tail",
+    "C13_parameters_applied_in_order",
     "C13_last_segment_spec",
     "C13_non_type_path_generates",
     "C13_matches_is_cargo",
@@ -836,7 +837,7 @@ def coq_pipe_expr(case, reqres):
     if not readme_wellformed(ext):
         x = "ExtMalformed"
     else:
-        ps = [PARAMS[p][1] for p in case["params"]]
+        ps = case["params_text"] if "params_text" in case else [PARAMS[p][1] for p in case["params"]]
         e = "(mk_ext %s %s %s)" % (vlib.coq_str(ext["crate"]), vlib.coq_str(ext["path"]),
                                    vlib.coq_list(ps, lambda p: vlib.coq_opt(p, vlib.coq_str)))
         rq = reqres["req"]
@@ -994,6 +995,227 @@ SITES = {
 }
 
 
+# ---- several occurrences in one type space ---------------------------------
+
+def _mext(path, params):
+    d = dict(OWN)
+    d["x-rust-type"] = {"crate": "coll", "version": "1.0.0", "path": path, "parameters": params}
+    return d
+
+
+# parameter descriptor -> (schema, text as a function of the crate's head segment)
+MPARAMS = {
+    "str": ({"type": "string"}, lambda h: "::std::string::String"),
+    "int": ({"type": "integer"}, lambda h: "i64"),
+    "bool": ({"type": "boolean"}, lambda h: "bool"),
+    "plain": ({"$ref": "#/definitions/Plain"}, lambda h: "Plain"),
+    "gizmo": ({"$ref": "#/definitions/Gizmo"}, lambda h: "::gz::Gizmo"),
+    "nest_s": (_mext("coll::Inner", [{"type": "string"}]), lambda h: "::%s::Inner<::std::string::String>" % h),
+    "nest_i": (_mext("coll::Inner", [{"type": "integer"}]), lambda h: "::%s::Inner<i64>" % h),
+    "nest_0": (_mext("coll::Inner", []), lambda h: "::%s::Inner" % h),
+    "nest_n": (_mext("coll::Inner", [_mext("coll::Inner", [{"type": "boolean"}]), {"type": "string"}]),
+               lambda h: "::%s::Inner<::%s::Inner<bool>,::std::string::String>" % (h, h)),
+}
+MPATHS = ["coll::Deque", "coll::Other", "coll::m::Deque"]
+# (crates, policy, used per the property text, head segment)
+MCONFIGS = [
+    ([{"name": "coll", "version": "*"}], "generate", True, "coll"),
+    ([{"name": "coll", "version": "1.2.3"}], "deny", True, "coll"),
+    ([], "allow", True, "coll"),
+    ([{"name": "coll", "version": "*", "rename": "c-2"}], "generate", True, "c_2"),
+    ([{"name": "coll", "version": "1.0.0", "rename": "coll"}], "allow", True, "coll"),
+    ([], "generate", False, None),
+    ([{"name": "coll", "version": "!"}], "allow", False, None),
+    ([{"name": "coll", "version": "2.0.0"}], "deny", False, None),
+]
+
+
+def multi_layouts(ctx):
+    rnd = random.Random(ctx.seed * 31337 + 17)
+    O = lambda pos, path, ps: {"pos": pos, "path": path, "params": ps}
+    D = "coll::Deque"
+    fixed = [
+        [O("direct", D, ["str"]), O("direct", D, ["bool"])],                       # names / counts
+        [O("direct", D, ["bool"]), O("direct", D, ["str"])],
+        [O("direct", D, []), O("direct", D, ["str"]), O("direct", D, ["str", "int"]), O("direct", D, ["int", "str"])],
+        [O("direct", D, ["int"]), O("direct", D, ["int"]), O("direct", "coll::Other", ["int"]), O("array", D, ["int"])],
+        [O("direct", D, ["nest_s"]), O("direct", D, ["nest_i"]), O("direct", D, ["nest_0"]), O("direct", D, ["nest_n"])],
+        [O("direct", D, ["plain"]), O("direct", D, ["gizmo"]), O("direct", D, ["str"]), O("direct", D, ["plain", "gizmo"])],
+        [O("array", D, ["str"]), O("map", D, ["int"]), O("variant", D, ["bool"]), O("direct", D, ["plain"])],
+        [O("variant", D, ["str"]), O("variant", D, ["int"]), O("map", D, ["str"]), O("map", D, ["bool"])],
+        [O("def", D, ["str"]), O("def", D, ["int"]), O("direct", D, ["bool"]), O("direct", D, ["int"]), O("def", D, [])],
+        [O("array", "coll::m::Deque", ["nest_i", "str"]), O("direct", "coll::m::Deque", ["nest_s", "str"]),
+         O("map", "coll::m::Deque", ["str", "nest_i"])],
+    ]
+    out = [(lay, cfg) for lay in fixed for cfg in MCONFIGS]
+    n = 40 if ctx.tier == "quick" else 400
+    for _ in range(n):
+        lay = []
+        paths = rnd.sample(MPATHS, rnd.choice([1, 1, 2]))
+        for _o in range(rnd.choice([2, 3, 4, 6])):
+            ps = [rnd.choice(sorted(MPARAMS)) for _p in range(rnd.choice([0, 1, 1, 2, 2, 3]))]
+            lay.append(O(rnd.choice(["direct", "direct", "array", "map", "variant", "def"]), rnd.choice(paths), ps))
+        rnd.shuffle(lay)
+        out.append((lay, MCONFIGS[rnd.choice([0, 1, 2, 3, 4, 0, 1, 2, 5, 6, 7])]))
+    return out
+
+
+def multi_doc(lay):
+    props, defs = {}, {"Plain": {"type": "object", "properties": {"p": {"type": "integer"}}}}
+    gz = dict(OWN)
+    gz["x-rust-type"] = {"crate": "gz", "version": "*", "path": "gz::Gizmo"}
+    defs["Gizmo"] = gz
+    for k, o in enumerate(lay):
+        key = "f%d" % k
+        e = _mext(o["path"], [MPARAMS[p][0] for p in o["params"]])
+        if o["pos"] == "direct":
+            props[key] = e
+        elif o["pos"] == "array":
+            props[key] = {"type": "array", "items": e}
+        elif o["pos"] == "map":
+            props[key] = {"type": "object", "additionalProperties": e}
+        elif o["pos"] == "variant":
+            props[key] = {"oneOf": [e, {"type": "integer"}]}
+        else:
+            defs["D%d" % k] = e
+            props[key] = {"$ref": "#/definitions/D%d" % k}
+    defs["Holder"] = {"type": "object", "required": sorted(props), "properties": props}
+    return {"definitions": defs}
+
+
+VEC_PRE, MAP_PRE = "::std::vec::Vec<", "::std::collections::HashMap<::std::string::String,"
+
+
+def multi_observe(lay, r):
+    """Per occurrence: the emitted type text (syn scan) and Type::ident() (API view)."""
+    if r.get("r") != "done" or not r.get("all_ok") or r.get("render") != "ok":
+        return None, json.dumps({k: r.get(k) for k in ("r", "steps", "render", "msg")})[:300]
+    items = {i["name"]: i for i in r["items"]}
+    fields = {x["name"]: norm_ty(x["ty"]) for x in items["Holder"]["fields"]["fields"]}
+    types = {t["id"]: t for t in r["types"]}
+    holder = [t for t in r["types"] if t["name"] == "Holder"][0]
+    pid = {p["name"]: p["type_id"] for p in holder["details"]["props"]}
+    out = []
+    for k, o in enumerate(lay):
+        key = "f%d" % k
+        ft = fields[key]
+        t = types[pid[key]]
+        wrapper = None
+        if o["pos"] == "array":
+            scan = ft[len(VEC_PRE):-1] if ft.startswith(VEC_PRE) else "?" + ft
+            t = types[t["details"]["id"]] if t["details"]["k"] == "vec" else t
+        elif o["pos"] == "map":
+            scan = ft[len(MAP_PRE):-1] if ft.startswith(MAP_PRE) else "?" + ft
+            t = types[t["details"]["value"]] if t["details"]["k"] == "map" else t
+        elif o["pos"] == "variant":
+            en = items.get(ft)
+            v0 = en["variants"][0]["fields"] if en and en["kind"] == "enum" else None
+            scan = norm_ty(v0["fields"][0]["ty"]) if v0 and v0["k"] == "tuple" else "?" + ft
+            if t["details"]["k"] == "enum" and t["details"]["variants"][0]["details"]["k"] == "tuple":
+                t = types[t["details"]["variants"][0]["details"]["ids"][0]]
+        else:
+            scan = ft
+            d = items.get(ft)
+            if o["pos"] == "def" and d is not None and d["kind"] == "struct" and d["fields"]["k"] == "tuple" \
+                    and ["transparent"] in d["serde"]:
+                wrapper = ft
+                scan = norm_ty(d["fields"]["fields"][0]["ty"])
+                if t["details"]["k"] == "newtype":
+                    t = types[t["details"]["inner"]]
+        out.append({"scan": scan, "api": norm_ty(t["ident"]), "wrapper": wrapper})
+    return out, None
+
+
+def run_multi(ctx):
+    """Several x-rust-type occurrences in ONE type space (inline positions go
+    through assign_type's de-duplication of unnamed types): every occurrence's
+    emitted type must be the model's `path<its own converted parameters>`."""
+    lays = multi_layouts(ctx)
+    cases = [{"op": "pipe", "settings": {"unknown_crates": pol, "crates": [{"name": "gz", "version": "*"}] + cr},
+              "steps": [{"op": "root", "doc": multi_doc(lay)}]} for lay, (cr, pol, _, _) in lays]
+    res = vlib.run_bin("c13", cases)
+    vs = sorted({c["version"] for cr, _, _, _ in MCONFIGS for c in cr if c["version"] not in ("*", "!")})
+    rq = vlib.run_bin("c13", [{"op": "req", "req": "1.0.0", "versions": vs}])[0]
+    tpm = dict(zip(MPATHS, vlib.run_bin("c13", [{"op": "paths", "paths": MPATHS}])[0]["type_path"]))
+    exprs, meta = [], []
+    for si, (lay, (cr, pol, used, head)) in enumerate(lays):
+        for k, o in enumerate(lay):
+            pc = {"ext": {"crate": "coll", "version": "1.0.0", "path": o["path"]}, "crates": cr, "policy": pol,
+                  "defname": "D%d" % k if o["pos"] == "def" else "Zz", "params": [],
+                  "params_text": [MPARAMS[p][1](head or "coll") for p in o["params"]]}
+            info = {"req": rq["comparators"], "cfgver": dict(zip(vs, rq["versions"])), "type_path": tpm[o["path"]]}
+            exprs.append(coq_pipe_expr(pc, info))
+            meta.append((si, k))
+    model = vlib.coq_eval_strings("c13m", HDR, exprs, shard=max(20, len(exprs) // (2 * vlib.NCPU) + 1))
+    by = {mk: m for mk, m in zip(meta, model)}
+    mism, viol, n_occ, n_shared = [], [], 0, 0
+    for si, ((lay, (cr, pol, used, head)), r) in enumerate(zip(lays, res)):
+        obs, fail = multi_observe(lay, r)
+        if obs is None:
+            mism.append({"layout": lay, "crates": cr, "policy": pol, "fail": fail})
+            viol.append({"kind": "multi-pipeline-failure", "layout": lay, "crates": cr, "policy": pol, "observed": fail})
+            continue
+        if MUT == "real-native-eq-by-path":
+            # emulates seeded change C13-s5: unnamed native types compared by path only, so a later inline
+            # occurrence (properties are converted in key order) resolves to the first one with that path
+            first = {}
+            for k in sorted(range(len(lay)), key=lambda k: "f%d" % k):
+                if lay[k]["pos"] != "def":
+                    if lay[k]["path"] in first and obs[k]["scan"].startswith("::"):
+                        obs[k] = dict(obs[k], scan=first[lay[k]["path"]]["scan"], api=first[lay[k]["path"]]["api"])
+                    elif obs[k]["scan"].startswith("::"):
+                        first[lay[k]["path"]] = obs[k]
+        texts = {}
+        for k, o in enumerate(lay):
+            n_occ += 1
+            dec, dfn = by[(si, k)].split(" / ")
+            # --- model
+            if dec == "generate":
+                ok_m = not any(h in obs[k][w] for h in ("::coll::", "::c_2::") for w in ("scan", "api"))
+            else:
+                want = norm_ty(dec[len("use "):])
+                ok_m = obs[k]["scan"] == want and obs[k]["api"] == want
+                if o["pos"] == "def":
+                    ok_m = ok_m and (obs[k]["wrapper"] is not None) == dfn.startswith("newtype ")
+                elif obs[k]["wrapper"] is not None:
+                    ok_m = False
+            if not ok_m:
+                mism.append({"layout": lay, "occurrence": k, "crates": cr, "policy": pol, "model": by[(si, k)],
+                             "observed": obs[k]})
+            # --- the property text: path with the first segment replaced, ITS parameters in order
+            base = oracle({"ext": {"crate": "coll", "version": "1.0.0", "path": o["path"]}, "crates": cr,
+                           "policy": pol, "params": []}, rq["versions"][vs.index(cr[0]["version"])]["matches"]
+                          if cr and cr[0]["version"] in vs else None)
+            if base[0] == "use":
+                ty = base[1]
+                if o["params"]:
+                    ty += "<" + ",".join(MPARAMS[p][1](ty.split("::")[1]) for p in o["params"]) + ">"
+                ty = norm_ty(ty)
+                if obs[k]["scan"] != ty or obs[k]["api"] != ty:
+                    viol.append({"kind": "multi-occurrence", "layout": lay, "occurrence": k, "crates": cr, "policy": pol,
+                                 "expected": "substituted by " + ty, "observed": obs[k]})
+                texts.setdefault((o["path"], tuple(o["params"])), set()).add(obs[k]["api"])
+            elif "::coll::" in obs[k]["scan"] or "::c_2::" in obs[k]["scan"]:
+                viol.append({"kind": "multi-occurrence", "layout": lay, "occurrence": k, "crates": cr, "policy": pol,
+                             "expected": "generated from the schema", "observed": obs[k]})
+            assert base[0] == ("use" if used else "generate"), (base, used)
+        n_shared += sum(1 for v in texts.values() if len(v) == 1)
+        ctx.nontrivial.add("multi|" + json.dumps([lay, cr, pol], sort_keys=True))
+    ctx.evaluations += n_occ
+    ctx.oblige("tie B2: every x-rust-type occurrence of a multi-occurrence type space is emitted as the model's "
+               "path<its own converted parameters> (%d occurrences in %d spaces; field type text and Type::ident)"
+               % (n_occ, len(lays)), not mism, json.dumps(mism[:3]))
+    ctx.coverage["multi_occurrence"] = {
+        "spaces": len(lays), "occurrences": n_occ,
+        "positions": {p: sum(1 for lay, _ in lays for o in lay if o["pos"] == p) for p in ("direct", "array", "map", "variant", "def")},
+        "rule": "10 curated layouts (same path / different parameters: scalars, $refs, nested x-rust-type, arity 0-3; same "
+                "path same parameters; different paths; struct property, array items, map values, variant payload, "
+                "definition) x 8 configurations + seeded layouts",
+    }
+    ctx.samples.append({"multi_layout": lays[0][0], "config": lays[0][1][:2], "observed": multi_observe(lays[0][0], res[0])[0]})
+    return viol
+
+
 def run_sites(ctx):
     """'wherever it is used': the definition referenced from other positions."""
     thing = dict(OWN)
@@ -1088,10 +1310,19 @@ def run(ctx):
     except Exception as e:  # noqa
         ctx.oblige("pipeline tie ran", False, repr(e))
     try:
+        found += run_multi(ctx)
+    except Exception as e:  # noqa
+        import traceback
+        ctx.oblige("multi-occurrence tie ran", False, traceback.format_exc()[-1500:])
+    try:
         found += run_sites(ctx)
     except Exception as e:  # noqa
         ctx.oblige("use-site evaluation ran", False, repr(e))
 
+    for v in found:
+        if v.get("kind", "").startswith("multi-") and "layout" in v:     # make the replay self-contained
+            v["settings"] = {"unknown_crates": v["policy"], "crates": [{"name": "gz", "version": "*"}] + v["crates"]}
+            v["schema"] = multi_doc(v["layout"])
     unlisted = []
     for v in found:
         f = classify_known(ctx, v)
